@@ -1239,7 +1239,7 @@ Section HeapProofs.
   Lemma sim_combine st ps h1 i1 h2 i2 : Inv st ps -> disciplined ps (OpCombine h1 i1 h2 i2) ->
     Inv (step valueof st (OpCombine h1 i1 h2 i2)) (pure_step valueof ps (OpCombine h1 i1 h2 i2)).
   Proof.
-    intros HI (Hne & k & b1 & b2 & P1 & P2 & Hi1 & Hi2).
+    intros HI (k & b1 & b2 & P1 & P2 & Hi1 & Hi2).
     destruct (hwf_lookup _ _ _ _ _ HI P1) as (hd1 & N1 & W1).
     destruct (hwf_lookup _ _ _ _ _ HI P2) as (hd2 & N2 & W2).
     pose proof (hw_len _ _ _ _ W1) as L1. pose proof (hw_len _ _ _ _ W2) as L2.
@@ -1327,8 +1327,42 @@ Section HeapProofs.
     forall h k b, plive (pure_run valueof ops) h = Some (k, b) -> abs (run valueof ops) h = Some b.
   Proof. intros ops Hd h k b Hp. eapply inv_abs; [apply run_inv; exact Hd|exact Hp]. Qed.
 
+  (** the boolean discipline test evaluated by the harness (extracted) implies the
+      discipline of the theorems *)
+  Lemma disciplined_b_sound ps (o : op (A := A)) : disciplined_b ps o = true -> disciplined ps o.
+  Proof.
+    destruct o as [keep n|h x i|h|h|h n|h n|h1 h2|h1 i1 h2 i2]; cbn [disciplined_b disciplined]; intros H.
+    - exact I.
+    - destruct (plive ps h) as [[k b]|]; [|discriminate]. exists k, b. split; [reflexivity|apply Nat.ltb_lt; exact H].
+    - destruct (plive ps h) as [e|]; [|discriminate]. exists e; reflexivity.
+    - destruct (plive ps h) as [e|]; [|discriminate]. exists e; reflexivity.
+    - destruct (plive ps h) as [e|]; [|discriminate]. exists e; reflexivity.
+    - destruct (plive ps h) as [[k b]|]; [|discriminate]. exists k, b. split; [reflexivity|apply Nat.leb_le; exact H].
+    - apply andb_prop in H. destruct H as [Hn H]. split.
+      + intros E. subst h2. rewrite Nat.eqb_refl in Hn. discriminate.
+      + destruct (plive ps h1) as [[k1 b1]|]; [|discriminate]. destruct (plive ps h2) as [[k2 b2]|]; [|discriminate].
+        apply Bool.eqb_prop in H. subst k2. exists k1, b1, b2. split; reflexivity.
+    - destruct (plive ps h1) as [[k1 b1]|]; [|discriminate]. destruct (plive ps h2) as [[k2 b2]|]; [|discriminate].
+      apply andb_prop in H. destruct H as [H Hi2]. apply andb_prop in H. destruct H as [Hk Hi1].
+      apply Bool.eqb_prop in Hk. subst k2. exists k1, b1, b2.
+      repeat split; [apply Nat.ltb_lt; exact Hi1|apply Nat.ltb_lt; exact Hi2].
+  Qed.
+
+  Lemma disciplined_run_b_sound (ops : list (op (A := A))) : forall ps,
+    disciplined_run_b valueof ps ops = true -> disciplined_run valueof ps ops.
+  Proof.
+    induction ops as [|o t IH]; intros ps H; cbn [disciplined_run_b disciplined_run] in *; [exact I|].
+    apply andb_prop in H. destruct H as [Ho Ht]. split; [apply disciplined_b_sound; exact Ho|apply IH; exact Ht].
+  Qed.
+
+  (** C16 for the sequences the harness accepts: the boolean test suffices *)
+  Theorem heap_refines_pure_b : forall ops, disciplined_run_b valueof [] ops = true ->
+    forall h k b, plive (pure_run valueof ops) h = Some (k, b) -> abs (run valueof ops) h = Some b.
+  Proof. intros ops Hd. apply heap_refines_pure. apply disciplined_run_b_sound. exact Hd. Qed.
+
 End HeapProofs.
 
 Print Assumptions run_inv.
 Print Assumptions run_handles_length.
 Print Assumptions heap_refines_pure.
+Print Assumptions heap_refines_pure_b.
